@@ -36,6 +36,30 @@ class Stack:
     def key(self):
         return self.cxx
 
+    def view_bytes_upper(self):
+        """generous upper bound of sizeof(non_owning_data_t): field_view rejects views above 256 bytes (a stated
+        constraint), so stacks that may exceed it are not part of the well-kinded universe"""
+        szS = 8 if ("size_t" in self.S or self.S == "double") else 4
+        szT = 8 if self.T == "double" else 4
+        total = 0
+        for l in self.layers:
+            if l == "affine":
+                b = self.N * (self.N + 1) * 8
+            elif l == "clamp":
+                b = 2 * self.N * 8
+            elif l == "backup":
+                b = 2 * self.N * 8 + self.M * 8
+            elif l in ("strided", "morton_bmi2", "morton_portable", "hilbert"):
+                b = 8 * self.N
+            elif l == "array":
+                b = 16
+            elif l == "constant":
+                b = self.M * 8
+            else:
+                b = 8
+            total += b + 8
+        return total
+
     def __repr__(self):
         return "<" + ">".join(self.layers) + " %s^%d->%s^%d%s>" % (self.S, self.N, self.T, self.M, "&" if self.ref else "")
 
